@@ -2,7 +2,7 @@
     Only statements; model in SGV.Kernel.Sched, proofs in SGV.Kernel.SchedProofs.
     [micro]/[at_simcall] (user code of an actor, a function of its own local state) and [handle] (the kernel's simcall
     handler, run by maestro alone in list order) are arbitrary. *)
-From SGV Require Import Base.Tactics Kernel.Sched Kernel.SchedProofs.
+From SGV Require Import Base.Tactics Kernel.Ref Kernel.Sched Kernel.SchedProofs.
 From Coq Require Import Permutation.
 
 Section C02.
@@ -40,6 +40,14 @@ Print Assumptions C02_user_phase_confluent.
 Print Assumptions C02_user_phase_perm.
 Print Assumptions C02_subround_sched_indep.
 Print Assumptions C02_run_sched_indep.
+
+(* the kernel phase of the concrete engine model used by C14 (Kernel/Ref.v handle_all: synchronisation programs, reference
+   step function as handler) is an instance of the abstract kernel phase *)
+Theorem C02_engine_model_is_instance : forall P l s ls next tr s' next' tr',
+  Ref.handle_all P l s next tr = (s', next', tr') ->
+  kernel_phase (handle_ref P) l (s, ls) next = ((s', ls), next').
+Proof. exact handle_all_is_kernel_phase. Qed.
+Print Assumptions C02_engine_model_is_instance.
 
 (* non-vacuity: three actors whose user code takes 3, 1 and 2 micro-steps; a serial schedule and a shuffled,
    over-long "parallel" one are both admissible for two sub-rounds and give the same non-trivial result *)
